@@ -69,6 +69,13 @@ def close_points(ksweep=(0, 1, 2, 3, 5, 8, 12)):
             add(f'reset-from-{frm}@{hook}', 'other', pre + [['call', 'B', 'close'], settle(0.3), ['release_all'], settle(0.3), ['sample']])
     # leaving the async-with block
     add('finished-aexit', 'same', START + one_run() + [['call', 'A', 'aexit'], settle(), ['sample']])
+    # subscriptions handed out WHILE close() is in progress (after its first pubsub.close()): they too must have
+    # terminated when close() returns
+    add('subscribe-while-closing@waiting-for-run', 'other', START + RUN_A + [['call', 'B', 'close'], settle(0.3), ['subscribe', 'late'], settle(0.2),
+                                                                           ['child', 'return'], settle(0.6), ['sample']])
+    for hook in ('close', 'on_change_state'):
+        add(f'subscribe-while-closing@{hook}', 'same', START + [['hold', hook], ['call', 'A', 'close'], settle(0.3), ['subscribe', 'late'], settle(0.2),
+                                                                 ['release_all'], settle(0.4), ['sample']])
     # a second close() while the first is in flight (held in the close hook / waiting for the run): it must not raise
     # and must not disturb the first; a third one after the first has returned finds the state closed
     add('closing@close-hook', 'other', START + [['hold', 'close'], ['call', 'A', 'close'], settle(0.3), ['call', 'B', 'close'], settle(0.3),
